@@ -251,6 +251,45 @@ async fn inst_leftover_run(base: std::path::PathBuf) -> Vec<String> {
     fails
 }
 
+/// the leader's snapshot stream is abandoned after the follower opened the file (half the bytes written, handle dropped) and then
+/// starts again from offset 0: the second attempt must install like a first one
+async fn inst_aborted_stream_run(base: std::path::PathBuf) -> Vec<String> {
+    let (dir_l, dir_f) = (base.join("aborted-leader"), base.join("aborted-follower"));
+    for d in [&dir_l, &dir_f] { std::fs::create_dir_all(d).unwrap(); }
+    let mut fails = vec![];
+    let leader = inst_start_node(&dir_l, 1).await;
+    let follower = inst_start_node(&dir_f, 2).await;
+    for i in 0..5 {
+        let index = i as u64 + 1;
+        let req = inst_history(i);
+        leader.store.append_entry_to_log(&inst_entry(index, req.clone())).await.unwrap();
+        leader.store.apply_entry_to_state_machine(&index, &req).await.unwrap();
+    }
+    let mut data = leader.store.do_log_compaction().await.unwrap();
+    let mut bytes = vec![];
+    data.snapshot.seek(std::io::SeekFrom::Start(0)).await.unwrap();
+    data.snapshot.read_to_end(&mut bytes).await.unwrap();
+    {
+        let (_id, mut file) = follower.store.create_snapshot().await.unwrap();
+        file.write_all(&bytes[..bytes.len() / 2]).await.unwrap();
+        file.flush().await.unwrap();
+    }
+    let (id, mut file) = match follower.store.create_snapshot().await {
+        Ok(v) => v,
+        Err(e) => { fails.push(format!("VX-BOUNDED-FAIL INSTALL aborted-stream: after an abandoned snapshot stream the follower cannot open a snapshot file again: {}", e)); return fails; }
+    };
+    file.write_all(&bytes).await.unwrap();
+    file.flush().await.unwrap();
+    if let Err(e) = follower.store.finalize_snapshot_installation(data.index, 1, None, id, file).await {
+        fails.push(format!("VX-BOUNDED-FAIL INSTALL aborted-stream: the second attempt cannot be finalized: {}", e));
+        return fails;
+    }
+    tokio::time::sleep(Duration::from_millis(400)).await;
+    let (ls, fs) = (inst_observe(&leader).await, inst_observe(&follower).await);
+    if fs != ls { fails.push(format!("VX-BOUNDED-FAIL INSTALL aborted-stream: the leader serves: {} | the follower after the second attempt serves: {}", ls, fs)); }
+    fails
+}
+
 #[test]
 fn vx_bounded_c08_install() {
     let base = std::env::temp_dir().join(format!("vx_c08i_{}", std::process::id()));
@@ -260,14 +299,125 @@ fn vx_bounded_c08_install() {
     let (failures, runs) = sys.block_on(async {
         let mut futs = vec![];
         for n in 1..=INST_HISTORY_LEN { for p in 1..=n { for j in 0..p { futs.push(inst_one_run(base.clone(), n, p, j)); } } }
-        let runs = futs.len() + 1;
+        let runs = futs.len() + 2;
         let res = futures_util::future::join_all(futs).await;
         let mut all = res.into_iter().flatten().collect::<Vec<String>>();
         all.extend(inst_leftover_run(base.clone()).await);
+        all.extend(inst_aborted_stream_run(base.clone()).await);
         (all, runs)
     });
     let _ = std::fs::remove_dir_all(&base);
     println!("vx_bounded_c08_install: {} (history, compaction point, follower lag) runs through FileStore::finalize_snapshot_installation", runs);
     for f in failures.iter() { println!("{}", f); }
     assert!(failures.is_empty(), "{} probes: a follower caught up by snapshot install does not serve what the leader serves", failures.len());
+}
+
+// ------------------------------------------------------------------------------------------------------------------------
+// Bounded stand-in for the storage boundary of C05 (behind the proof of FileStore::{save_hard_state, get_initial_state}): what a node
+// REPORTS to the Raft core after saves, in the same process and after a restart from a copy of its directory.  Save histories over
+// {address of a peer, hard state (term, vote), membership} in every order that keeps the index image above 20 bytes (below: finding S5).
+async fn his_report(node: &InstNode) -> String {
+    match node.store.get_initial_state().await {
+        Ok(s) => { let mut m: Vec<u64> = s.membership.members.iter().cloned().collect(); m.sort(); format!("term {} vote {:?} applied {} members {:?}", s.hard_state.current_term, s.hard_state.voted_for, s.last_applied_log, m) }
+        Err(e) => format!("error {}", e),
+    }
+}
+
+#[test]
+fn vx_bounded_c05_initial_state() {
+    use async_raft::storage::HardState;
+    let base = std::env::temp_dir().join(format!("vx_c05is_{}", std::process::id()));
+    let _ = std::fs::remove_dir_all(&base);
+    std::fs::create_dir_all(&base).unwrap();
+    let sys = actix::System::new();
+    let bad: Vec<String> = sys.block_on(async {
+        let mut bad = vec![];
+        // op 0: peer address, 1: hard state (3, vote 2), 2: membership [1,2,3], 3: hard state (4, no vote)
+        let histories: Vec<Vec<usize>> = vec![vec![0, 1], vec![0, 1, 2], vec![0, 2, 1], vec![0, 1, 3], vec![0, 2, 1, 3], vec![0, 1, 2, 3], vec![0, 3, 1]];
+        for (hi, ops) in histories.iter().enumerate() {
+            let (dir, dir_r) = (base.join(format!("h{}", hi)), base.join(format!("h{}-restart", hi)));
+            for d in [&dir, &dir_r] { std::fs::create_dir_all(d).unwrap(); }
+            let node = inst_start_node(&dir, 1).await;
+            let (mut term, mut vote, mut members): (u64, Option<u64>, Vec<u64>) = (0, None, vec![]);
+            for &op in ops.iter() {
+                match op {
+                    0 => { node.index_manager.send(RaftIndexRequest::AddNodeAddr(2, Arc::new("127.0.0.1:9849".to_owned()))).await.unwrap().unwrap(); }
+                    1 => { node.store.save_hard_state(&HardState { current_term: 3, voted_for: Some(2) }).await.unwrap(); term = 3; vote = Some(2); }
+                    2 => { node.index_manager.send(RaftIndexRequest::SaveMember { member: vec![1, 2, 3], member_after_consensus: None, node_addr: None }).await.unwrap().unwrap(); members = vec![1, 2, 3]; }
+                    _ => { node.store.save_hard_state(&HardState { current_term: 4, voted_for: None }).await.unwrap(); term = 4; vote = None; }
+                }
+            }
+            let want_prefix = format!("term {} vote {:?} applied 0", term, vote);
+            let got = his_report(&node).await;
+            if !got.starts_with(&want_prefix) || (!members.is_empty() && !got.ends_with(&format!("members {:?}", members))) {
+                bad.push(format!("VX-BOUNDED-FAIL INITIAL-STATE same-process history {:?}: saved (term {}, vote {:?}, members {:?}), the store reports: {}", ops, term, vote, members, got));
+            }
+            tokio::time::sleep(Duration::from_millis(300)).await;
+            inst_copy_dir(&dir, &dir_r);
+            let restarted = inst_start_node(&dir_r, 1).await;
+            let got = his_report(&restarted).await;
+            if !got.starts_with(&want_prefix) || (!members.is_empty() && !got.ends_with(&format!("members {:?}", members))) {
+                bad.push(format!("VX-BOUNDED-FAIL INITIAL-STATE restart history {:?}: saved (term {}, vote {:?}, members {:?}), the restarted store reports: {}", ops, term, vote, members, got));
+            }
+        }
+        bad
+    });
+    let _ = std::fs::remove_dir_all(&base);
+    for b in bad.iter() { println!("{}", b); }
+    assert!(bad.is_empty(), "{} save histories are reported wrongly to the Raft core", bad.len());
+}
+
+// ------------------------------------------------------------------------------------------------------------------------
+// Bounded stand-in for C07 at the storage boundary (behind the proof of FileStore::{apply_entry_to_state_machine,
+// replicate_to_state_machine} and StateApplyManager's batch handler): the same committed sequence applied (L) entry by entry through
+// the leader call, (F1) as ONE replicated batch, (F2) in replicated batches of two, each on its own node behind the real FileStore and
+// the real StateApplyManager actor; the nodes must serve the same data.  Every sequence of <= 3 requests out of 7 (two values and a
+// removal for one user row, another row, a config set / remove / second set) and every length-4 sequence that starts `set, remove, set`.
+fn bat_request(i: usize) -> ClientRequest {
+    let users = Arc::new("T_USER".to_owned());
+    match i {
+        0 => ClientRequest::TableManagerReq(TableManagerReq::Set { table_name: users, key: b"u1".to_vec(), value: b"v1".to_vec(), last_seq_id: None }),
+        1 => ClientRequest::TableManagerReq(TableManagerReq::Set { table_name: users, key: b"u1".to_vec(), value: b"v2".to_vec(), last_seq_id: None }),
+        2 => ClientRequest::TableManagerReq(TableManagerReq::Remove { table_name: users, key: b"u1".to_vec() }),
+        3 => ClientRequest::TableManagerReq(TableManagerReq::Set { table_name: users, key: b"u2".to_vec(), value: b"x".to_vec(), last_seq_id: None }),
+        4 => inst_config_set("a", "value-a", 1),
+        5 => ClientRequest::ConfigRemove { key: inst_key("a") },
+        _ => inst_config_set("a", "value-a2", 6),
+    }
+}
+
+#[test]
+fn vx_bounded_c07_batches() {
+    let base = std::env::temp_dir().join(format!("vx_c07b_{}", std::process::id()));
+    let _ = std::fs::remove_dir_all(&base);
+    std::fs::create_dir_all(&base).unwrap();
+    let sys = actix::System::new();
+    let (bad, runs) = sys.block_on(async {
+        let mut seqs: Vec<Vec<usize>> = vec![];
+        for a in 0..7 { seqs.push(vec![a]); for b in 0..7 { seqs.push(vec![a, b]); for c in 0..7 { seqs.push(vec![a, b, c]); } } }
+        for d in 0..7 { seqs.push(vec![0, 2, 1, d]); seqs.push(vec![4, 5, 6, d]); seqs.push(vec![d, 0, 2, 1]); }
+        let mut bad: Vec<String> = vec![];
+        for (si, seq) in seqs.iter().enumerate() {
+            let dirs: Vec<std::path::PathBuf> = ["l", "f1", "f2"].iter().map(|n| base.join(format!("s{}-{}", si, n))).collect();
+            for d in dirs.iter() { std::fs::create_dir_all(d).unwrap(); }
+            let (l, f1, f2) = (inst_start_node(&dirs[0], 1).await, inst_start_node(&dirs[1], 2).await, inst_start_node(&dirs[2], 3).await);
+            let reqs: Vec<ClientRequest> = seq.iter().map(|i| bat_request(*i)).collect();
+            let idx: Vec<u64> = (1..=reqs.len() as u64).collect();
+            for (i, r) in reqs.iter().enumerate() { l.store.apply_entry_to_state_machine(&idx[i], r).await.unwrap(); }
+            let whole: Vec<(&u64, &ClientRequest)> = idx.iter().zip(reqs.iter()).collect();
+            f1.store.replicate_to_state_machine(&whole).await.unwrap();
+            for chunk in whole.chunks(2) { f2.store.replicate_to_state_machine(chunk).await.unwrap(); }
+            tokio::time::sleep(Duration::from_millis(5)).await;
+            let (ol, o1, o2) = (inst_observe(&l).await, inst_observe(&f1).await, inst_observe(&f2).await);
+            if (o1 != ol || o2 != ol) && bad.len() < 10 {
+                bad.push(format!("VX-BOUNDED-FAIL BATCH sequence {:?}: leader (entry by entry) serves: {} | follower (one batch): {} | follower (batches of two): {}", seq, ol, o1, o2));
+            }
+            for d in dirs.iter() { let _ = std::fs::remove_dir_all(d); }
+        }
+        (bad, seqs.len())
+    });
+    let _ = std::fs::remove_dir_all(&base);
+    println!("vx_bounded_c07_batches: {} committed sequences applied entry by entry, as one batch and in batches of two", runs);
+    for b in bad.iter() { println!("{}", b); }
+    assert!(bad.is_empty(), "{} sequences: a follower that got the entries in batches serves something else than the leader", bad.len());
 }
